@@ -600,6 +600,52 @@ func main() {
 			}
 		}
 	}
+	// the constructors copy: the new set and the caller's map / slice are independent objects, whatever
+	// the map's value type is (struct{} makes the argument look like a set's own storage) and also when the
+	// argument IS a maps.Set
+	{
+		detached := func(name string, mk func(src map[int]struct{}) sets.Set[int]) {
+			src := map[int]struct{}{1: {}, 2: {}}
+			st := mk(src)
+			e.Input(true)
+			e.Call()
+			src[7] = struct{}{}
+			delete(src, 1)
+			if st.Has(7) || !st.Has(1) || st.Len() != 2 {
+				e.Fail(name+"|aliases-argument", map[string]any{"constructor": name}, "%s: after the caller changed its own map the set holds %v (want [1 2])", name, st.Slice())
+			}
+			st.Add(9)
+			st.Remove(2)
+			if _, ok := src[9]; ok || len(src) != 2 {
+				e.Fail(name+"|aliases-argument", map[string]any{"constructor": name}, "%s: Add/Remove on the set changed the caller's map to %v", name, src)
+			}
+		}
+		detached("maps.NewSetFromKeys(map[int]struct{})", func(m map[int]struct{}) sets.Set[int] { return maps.NewSetFromKeys(m) })
+		detached("sync2.NewSetFromKeys(map[int]struct{})", func(m map[int]struct{}) sets.Set[int] { return sync2.NewSetFromKeys(m) })
+		detached("maps.NewSetFromKeys(maps.Set)", func(m map[int]struct{}) sets.Set[int] { return maps.NewSetFromKeys(maps.Set[int](m)) })
+		detached("sync2.NewSetFromKeys(maps.Set)", func(m map[int]struct{}) sets.Set[int] { return sync2.NewSetFromKeys(maps.Set[int](m)) })
+		type named map[int]struct{}
+		detached("maps.NewSetFromKeys(named map type)", func(m map[int]struct{}) sets.Set[int] { return maps.NewSetFromKeys(named(m)) })
+		// values: map[string]int whose values are the members
+		vsrc := map[string]int{"a": 1, "b": 2}
+		for name, st := range map[string]sets.Set[int]{"maps.NewSetFromValues": maps.NewSetFromValues(vsrc), "sync2.NewSetFromValues": sync2.NewSetFromValues(vsrc)} {
+			vsrc["c"] = 7
+			e.Call()
+			if st.Has(7) || st.Len() != 2 {
+				e.Fail(name+"|aliases-argument", nil, "%s: the set changed with the caller's map", name)
+			}
+			delete(vsrc, "c")
+		}
+		sl := []int{1, 2, 3}
+		for name, st := range map[string]sets.Set[int]{"maps.NewSetFromSlice": maps.NewSetFromSlice(sl), "sync2.NewSetFromSlice": sync2.NewSetFromSlice(sl)} {
+			sl[0] = 8
+			e.Call()
+			if st.Has(8) || !st.Has(1) {
+				e.Fail(name+"|aliases-argument", nil, "%s: the set changed with the caller's slice", name)
+			}
+			sl[0] = 1
+		}
+	}
 	r.Set("element_type_states", allTypedSets(r))
 	for k, mk := range map[string]func() sets.Set[int]{"maps.Set": func() sets.Set[int] { return newSet(kMaps) }, "sync2.Set": func() sets.Set[int] { return newSet(kSync) }} {
 		cases, msg := wraps.Set(mk)
